@@ -497,6 +497,52 @@ func gen(tier string, seed uint64) []runner.Scenario {
 		})
 	}
 
+	// B2. a single frame that announces more than the limit and then trickles in: the reader gives up
+	// on it long before the announced amount has arrived, having buffered and pulled a bounded amount
+	add("wire/reader/announced-and-trickled", func(a *acc) {
+		for _, max := range []int{1, 1000, 4096, 65536} {
+			for _, announced := range []uint64{uint64(max) + 1, uint64(10 * max), 1 << 20, 1 << 30, 1<<63 - 1} {
+				for _, piece := range []int{7, 64, 1024, 65536} {
+					supplied := 4 << 20
+					if announced < uint64(supplied) {
+						supplied = int(announced)
+					}
+					hdr := []byte{byte(drpcwire.KindMessage)<<1 | 1}
+					hdr = refwire.PutUvarint(hdr, 1)
+					hdr = refwire.PutUvarint(hdr, 1)
+					hdr = refwire.PutUvarint(hdr, announced)
+					data := append(hdr, make([]byte, supplied)...)
+					var cuts []int
+					for p := 1; p < len(data); p += piece {
+						cuts = append(cuts, p)
+					}
+					a.n++
+					desc := fmt.Sprintf("max=%d: one frame announcing %d bytes, %d bytes of it supplied in pieces of %d", max, announced, supplied, piece)
+					var m1, m2 runtime.MemStats
+					runtime.ReadMemStats(&m1)
+					a.guard("Reader.ReadPacket(trickled)", func() string { return desc }, func() {
+						sr := &wiregen.Scripted{Data: data, Cuts: cuts, Final: io.EOF}
+						rd := drpcwire.NewReaderWithOptions(sr, drpcwire.ReaderOptions{MaximumBufferSize: max})
+						_, err := rd.ReadPacketUsing(nil)
+						if err == nil {
+							a.fail("reader-oversize-packet", "%s: a packet was delivered", desc)
+						}
+						if c, _, _ := rd.VerifBufCap(); c > 4*max+64*1024 {
+							a.fail("reader-buffer-bound", "%s: buffer capacity %d", desc, c)
+						}
+						if sr.Pulled > 8*max+128*1024 && sr.Pulled > len(data)/2 {
+							a.fail("reader-pulls-oversized-frame", "%s: the reader took %d bytes from the transport before it gave up (%v)", desc, sr.Pulled, err)
+						}
+					})
+					runtime.ReadMemStats(&m2)
+					if allocated, limit := m2.TotalAlloc-m1.TotalAlloc, uint64(12*max+512*1024); allocated > limit {
+						a.fail("reader-alloc-bound", "%s: the reader allocated %d bytes (> %d)", desc, allocated, limit)
+					}
+				}
+			}
+		}
+	})
+
 	// C. error decoder
 	add("wire/unmarshal-error", func(a *acc) {
 		r := payload.SplitMix{S: payload.Hash(seed, 0x13C)}
